@@ -102,12 +102,31 @@ func judgeHelper(cs *Case) verdict {
 	u := math.Max(unitRoundoff(cs.Elem), unitRoundoff(cs.Recv))
 	x := ad.NullDenseMagicVector(xt, 3)
 	pre := has(cs.Opt, "preactivated")
+	// staleOrd: the argument's elements are results of an earlier computation in the same
+	// three variables (same N, order 1 or 2) and still carry its gradient / Hessian
+	staleOrd := 0
+	if has(cs.Opt, "stale1") {
+		staleOrd = 1
+	} else if has(cs.Opt, "stale2") {
+		staleOrd = 2
+	}
+	staleG := func(i, k int) float64 { return 0.5 + float64((2*i+k)%3) }
+	staleH := func(i, k, l int) float64 { return 0.25 + float64((i+k+2*l)%4) }
 	for i := 0; i < 3; i++ {
 		x.MagicAt(i).SetFloat64(float64(cs.X[i]))
 		if pre {
 			// the argument already is a variable of some outer computation
 			x.MagicAt(i).SetVariable(i+1, 5, 2)
 			x.MagicAt(i).SetDerivative(0, 3.5)
+		}
+		if staleOrd > 0 {
+			x.MagicAt(i).Alloc(3, staleOrd)
+			for k := 0; k < 3; k++ {
+				x.MagicAt(i).SetDerivative(k, staleG(i, k))
+				for l := 0; l < 3 && staleOrd > 1; l++ {
+					x.MagicAt(i).SetHessian(k, l, staleH(i, k, l))
+				}
+			}
 		}
 	}
 	xj := make([]jet, 3)
@@ -117,6 +136,9 @@ func judgeHelper(cs *Case) verdict {
 	cls := "helper"
 	if pre {
 		cls = "helper,x-preactivated"
+	}
+	if staleOrd > 0 {
+		cls = fmt.Sprintf("helper,x-carries-stale-order%d-derivatives", staleOrd)
 	}
 	v := verdict{outcome: "ok", nontriv: true, class: cls}
 	fail := func(bad, what string) verdict {
@@ -186,6 +208,17 @@ func judgeHelper(cs *Case) verdict {
 			if s.GetOrder() != 2 || s.GetN() != 5 || s.GetDerivative(i+1) != 1 || s.GetDerivative(0) != 3.5 {
 				return fail("argument-modified", "helper changed the derivative state of its argument")
 			}
+		} else if staleOrd > 0 {
+			ok := s.GetOrder() == staleOrd && s.GetN() == 3
+			for k := 0; k < 3 && ok; k++ {
+				ok = s.GetDerivative(k) == staleG(i, k)
+				for l := 0; l < 3 && ok && staleOrd > 1; l++ {
+					ok = s.GetHessian(k, l) == staleH(i, k, l)
+				}
+			}
+			if !ok {
+				return fail("argument-modified", "helper changed the derivative state of its argument")
+			}
 		} else if s.GetOrder() != 0 {
 			return fail("argument-modified", "helper activated its argument")
 		}
@@ -206,7 +239,7 @@ func exploreHelpers(c *vf.Ctx) {
 			X := []int{pts[p%3], pts[(p/3)%3], pts[(p/9)%3]}
 			for _, xe := range []string{"Real64", "Real32"} {
 				for _, rv := range recvs {
-					for _, opt := range []string{"", "preactivated"} {
+					for _, opt := range []string{"", "preactivated", "stale1", "stale2"} {
 						for _, routine := range []string{"Jacobian", "Hessian"} {
 							ex := exprAt(e)
 							if routine == "Jacobian" {
